@@ -235,6 +235,25 @@ def _norm_slot_and_round_type(ctx):
             ctx.ob('NORM-SLOT', 'pair:%s:%s' % (ff.name, df.name), fu == du, df.loc(df.body),
                    '%s uses norm_float: %s; %s uses norm_double: %s (siblings must both honour their flag)' % (ff.name, fu, df.name, du), None)
 
+    ctx.rule('DOUBLE-PATH', 'in every conversion kernel whose source is `const double *` (d2…_array and the double64.c readers) no sample value is narrowed to float on its way to the '
+             'integer result (no implicit FloatingCast double -> float of a non-constant); frozen exception: the PEAK scan, whose result is stored as float by the chunk format', floor=30)
+    ndp = 0
+    for f in sorted(prog.lib_fns(), key=lambda f: (f.file, f.line)):
+        if not any('const double *' in q['t'] for q in f.params):
+            continue
+        base = f.file.split('/')[-1]
+        if base not in ('pcm.c', 'double64.c', 'common.c', 'ulaw.c', 'alaw.c', 'xi.c', 'flac.c'):
+            continue
+        casts = [n for n in f.walk() if n.get('ck') == 'FloatingCast' and n.get('t') == 'float' and f.N[n['kids'][0]].get('t') == 'double'
+                 and f.unwrap(f.N[n['kids'][0]]).get('fv') is None and f.unwrap(f.N[n['kids'][0]]).get('v') is None]
+        ndp += 1
+        if f.name == 'double64_peak_update':
+            ctx.ob('DOUBLE-PATH', f.name, True, f.loc(f.body), 'frozen exception: PEAK values are 32-bit floats in the chunk format (%d narrowing(s))' % len(casts), None)
+            continue
+        ctx.ob('DOUBLE-PATH', f.name, not casts, f.loc(casts[0]) if casts else f.loc(f.body), 'no narrowing of the double sample' if not casts else
+               '`%s` is narrowed to float: the low bits of the sample are lost before rounding' % f.s(f.N[casts[0]['kids'][0]])[:50], None)
+    ctx.require(ndp >= 30, 'only %d double-source kernels found' % ndp)
+
     ctx.rule('ROUND-TYPE', 'psf_lrintf is applied only to float-typed expressions: a double argument would be narrowed to float before rounding (double rounding; the stored code can differ from the nearest integer)', floor=30)
     for f in sorted(prog.lib_fns(), key=lambda f: (f.file, f.line)):
         for c in f.calls():
